@@ -29,8 +29,16 @@ fn place(p: &Place<'_>) -> J {
 
 fn operand<'tcx>(tcx: TyCtxt<'tcx>, owner: LocalDefId, o: &Operand<'tcx>) -> J {
     match o {
-        Operand::Copy(p) => J::Obj(vec![("o", J::s("copy")), ("p", place(p))]),
-        Operand::Move(p) => J::Obj(vec![("o", J::s("move")), ("p", place(p))]),
+        Operand::Copy(p) | Operand::Move(p) => {
+            let kind = if matches!(o, Operand::Copy(_)) { "copy" } else { "move" };
+            let mut v = vec![("o", J::s(kind)), ("p", place(p))];
+            if !p.projection.is_empty() {
+                let body = tcx.optimized_mir(owner.to_def_id());
+                let t = p.ty(&body.local_decls, tcx).ty;
+                v.push(("ty", J::s(format!("{}", t))));
+            }
+            J::Obj(v)
+        }
         Operand::Constant(c) => {
             let t = c.const_.ty();
             let mut v = vec![("o", J::s("const")), ("ty", J::s(format!("{}", t)))];
